@@ -84,6 +84,7 @@ func (m *connmon) After(g *gw.GW, ev string, sn []gw.SNOut, mq []gw.MQOut, setup
 	cp, isClient := clientPkt(ev)
 	bp, isBroker := brokerPkt(ev)
 	unknownMethodNow := false
+	expectMsgReq, emptyTopic := false, false
 	if isClient {
 		switch cp.Type {
 		case refsn.CONNECT:
@@ -106,6 +107,10 @@ func (m *connmon) After(g *gw.GW, ev string, sn []gw.SNOut, mq []gw.MQOut, setup
 			}
 		case refsn.WILLTOPIC:
 			if m.ex.open {
+				// the first WILLTOPIC of an exchange that has asked for it (a legal one: the alphabet's topics are "w"
+				// and the empty topic, which means "no will") must be answered with WILLMSGREQ
+				expectMsgReq = m.ex.will && m.ex.topicReqs > 0 && !m.ex.gotTopic
+				emptyTopic = cp.Str == ""
 				m.ex.gotTopic = true
 				m.ex.wills = addUniq(m.ex.wills, fmt.Sprintf("%s\x00%d\x00%t", cp.Str, cp.QoS, cp.Retain))
 			}
@@ -161,6 +166,7 @@ func (m *connmon) After(g *gw.GW, ev string, sn []gw.SNOut, mq []gw.MQOut, setup
 		}
 	}
 	// ---- datagrams to the client
+	msgReqsBefore := m.ex.msgReqs
 	connacks := []byte{}
 	for _, o := range sn {
 		if o.Err != nil {
@@ -182,6 +188,13 @@ func (m *connmon) After(g *gw.GW, ev string, sn []gw.SNOut, mq []gw.MQOut, setup
 		case refsn.CONNACK:
 			connacks = append(connacks, o.P.RC)
 		}
+	}
+	if expectMsgReq && m.ex.msgReqs-msgReqsBefore != 1 {
+		var names []string
+		for _, o := range sn {
+			names = append(names, o.String())
+		}
+		add("C09", fmt.Sprintf("will:willtopic-not-answered-with-willmsgreq:empty-topic=%t", emptyTopic), "the WILLTOPIC the gateway had asked for was answered with %v, want exactly one WILLMSGREQ", names)
 	}
 	if isBroker && bp.Type == refmqtt.CONNACK {
 		m.outstanding--
@@ -256,6 +269,10 @@ func connAlphabet() []string {
 		gw.EvB("CONNACK(0)", refmqtt.EncConnack(0)),
 		gw.EvB("CONNACK(4)", refmqtt.EncConnack(4)),
 		gw.EvB("CONNACK(5)", refmqtt.EncConnack(5)),
+		gw.EvB("CONNACK(1)", refmqtt.EncConnack(1)),
+		gw.EvB("CONNACK(2)", refmqtt.EncConnack(2)),
+		gw.EvB("CONNACK(3)", refmqtt.EncConnack(3)),
+		gw.EvB("CONNACK(6 reserved)", refmqtt.EncConnack(6)),
 	}
 	return a
 }
@@ -291,7 +308,7 @@ func runConn(t *testing.T, prop, test string) {
 		depth = 7
 	}
 	gw.BFSCheck(rep, specs, gw.BFSOpts{Test: test, Depth: depth}, 120, 900)
-	rep.Coverage["rule"] = "breadth-first search over all orderings of CONNECT{will,no will,keep-alive 0} / AUTH{PLAIN x2, malformed x2, unknown method, empty method} / WILLTOPIC{non-empty,empty} / WILLMSG{m,empty} / broker CONNACK{0,4,5} (only while a CONNECT is unanswered), for auth on/off x gateway credentials {none, user+password, user only}; monitor per connect exchange"
+	rep.Coverage["rule"] = "breadth-first search over all orderings of CONNECT{will,no will,keep-alive 0} / AUTH{PLAIN x2, malformed x2, unknown method, empty method} / WILLTOPIC{non-empty,empty} / WILLMSG{m,empty} / broker CONNACK{0..6} (only while a CONNECT is unanswered), for auth on/off x gateway credentials {none, user+password, user only}; monitor per connect exchange"
 	rep.Assumptions = []string{"default schedule (no preemption within one event)", "the broker answers only CONNECTs it received"}
 	rep.Finish()
 }
